@@ -340,7 +340,7 @@ def task(args):
         classes.add((tuple(hist), tuple(sorted(pv.items())), c['local_as'] > 65535, c['remote_as'] > 65535, c['four_bytes_as']))
         for k, det in v:
             out.append((k, {'cfg': c, 'hist': list(hist), 'peer_open': pv}, det))
-    return n, out, len(classes)
+    return n, out, classes
 
 
 def histories(maxlen):
@@ -370,12 +370,13 @@ def run(tier, seed):
     results = explore.pmap(task, tasks, chunk=1)
     explore.close_pool()
     total = 0
-    ncls = 0
+    allcls = set()
     for n, out, k in results:
         total += n
-        ncls += k
+        allcls |= set((c[0], c[1]) for c in k)
         for key, wit, det in out:
             col.add(key, wit, det)
+    ncls = len(allcls)
     n_new, n_known, summary = col.finish('c05-scenario')
     cov = {
         'evaluations': total, 'distinct_nontrivial': ncls,
@@ -383,7 +384,7 @@ def run(tier, seed):
         'rule': 'configurations: local AS x remote AS over %s x configured hold %s x four_bytes_as x 2 capability variants (%d configs); '
                 'per config: every history of <= 2 earlier sessions over %s followed by an observed session (standard / wrong-AS / hold-1 / '
                 'hold-65535 peer OPEN), plus every peer OPEN variant (version x 8 AS encodings x hold %s x caps full/none) after no history '
-                'and after one accepted session; each executed on the real objects; distinct = distinct (history, peer OPEN, AS classes, 4b switch)'
+                'and after one accepted session; each executed on the real objects; distinct_nontrivial = distinct (history, peer OPEN variant) pairs'
                 % (list(AS_VALUES), list(HOLD_CFG), len(cfgs), list(HIST_KINDS), list(PEER_HOLDS)),
         'samples': [{'cfg': {'local_as': 65536, 'remote_as': 1, 'hold': 3, 'four_bytes_as': False},
                      'history': ['rej_h1', 'poor'], 'peer_open': {'as_mode': 'trans-right', 'hold': 65535}}],
